@@ -2,6 +2,41 @@
 SOURCE_COMMITS = []
 NOT_APPLICABLE = {}
 CHECKS = {
+ "C01": {
+  "text": "BobBuild.tla (develop-mode builder over two packages: import SCM and deterministic checkoutScript sources, build and "
+          "package steps, edits of script text, variable value, consumed-variable list, dependency add/remove, provided variable, "
+          "source add/modify/modify-in-subdirectory/delete, reverts) is model-checked exhaustively within small bounds for "
+          "IncrementalEqClean and Idempotent; TLC counterexamples of single weakenings of the skip/prune/re-run mechanism and "
+          "TLC-simulated histories are replayed with real `bob dev` / `bob build` runs (-j1/-j4, -D defines, import with and "
+          "without prune); oracle = real clean build of the same project state and the executed-step list of an unchanged "
+          "rebuild. Bounded model checking plus conformance on generated histories, not a proof of the code.",
+  "design_ref": "DESIGN.md section 4 (BobBuild.tla, C01) and 4.22",
+  "note": "deterministic generated scripts; two packages; classes and tools are not in the model yet; release mode and -j only as replay options judged by the end-to-end oracle",
+  "technique": "TLA+ spec + TLC exhaustive check; counterexample-directed and simulated edit histories replayed into real bob runs; oracle real clean build",
+ },
+ "C02": {
+  "text": "VariantId.tla (recipe algebra with the documented semantics: fragments, strong/weak variables, tools, arguments, SCM "
+          "description) is model-checked exhaustively over base catalogue x complete single-edit catalogue (36 edit kinds; "
+          "RevertRestores, Propagates, reach configs). Every (base, edit) state is replayed through the real parser (base, "
+          "neighbour, in-place revert): for all step pairs 'Variant-Ids equal' must equal TLC's 'execution tuples equal', and "
+          "all ids of the run are bucketed against tuple classes. Bounded model checking plus conformance on every generated "
+          "case, not a proof of the code.",
+  "design_ref": "DESIGN.md section 4, C02",
+  "note": "SHA-1 collision free on generated inputs; small alphabets; SCMs only via symbolic description; action coverage derived from printed states (TLC -coverage unusable on the recursive evaluator)",
+  "technique": "TLA+ spec + TLC exhaustive enumeration of (project, edit) pairs; cases replayed into the real parser (Step.getVariantId); partition comparison + global bucket test + revert with caches in place",
+ },
+ "C03": {
+  "text": "VariantId.tla in its configuration dimension (id-irrelevant edits x path x hash seed x file order x sandbox x parse "
+          "count) with the Purity invariant carrying the three documented exceptions per step and WeakToolBuildId; every state "
+          "is replayed by real OS processes (own PYTHONHASHSEED, directory, creation order, sandbox flag, reparse) computing "
+          "Variant-Ids and Build-Ids through the builder's own digest call; equal/different versus the reference run must be "
+          "exactly what TLC printed; plus a fixed golden-id table comparison for the shipped reference projects. Bounded "
+          "model checking plus conformance, not a proof.",
+  "design_ref": "DESIGN.md section 4, C03",
+  "note": "supplied source hashes and fingerprints stand in for checkout and fingerprint results; listing order varied via creation order; linux platform tag; the golden comparison is a fixed table, not decided by TLC",
+  "technique": "TLA+ spec + TLC enumeration of configurations; multi-process replay of the real parser and Build-Id computation; golden-id table of the shipped reference projects",
+ },
+
  "C07": {
   "text": "BobArtifacts.tla (two workspaces at different locations with independently edited project states - scripts, variable, "
           "dependency sources, host fingerprint, relocatability - sharing one archive; every download mode; upload on/off; "
